@@ -380,6 +380,10 @@ def run_contract(ex, c, argmap, st, e, yield_from=False):
     # vacuity guard: the callee's contract must not make a reachable state unreachable
     ex.covers.append(('%s/cover[after %s]#%d' % (ex.c.qualname, site, len(ex.covers)), list(post.pc), list(st.pc)))
     if yield_from:
+        exp = getattr(c, 'gen_export', None)
+        if exp is not None:
+            # what a consumer loop may know about the yield sequence (symexec.for_generator)
+            post.g['$gen-yields'] = exp(ctx)
         outs.append((post, V('yielded')))
     else:
         outs.append((post, VNONE if kind == 'none' else result_v))
@@ -580,6 +584,9 @@ def call_builtin(ex, name, e, st, awaited):
         return res
     if name in ('str', 'format'):
         for st2, vals in ex.ev_many(e.args, st):
+            if not isinstance(vals, Raised) and name == 'str' and len(vals) == 1 and vals[0].kind == 'str':
+                res.append((st2, vals[0]))          # str() of a str is that str
+                continue
             res.append((st2, vals if isinstance(vals, Raised) else vstr(L.fresh('str', L.Str))))
         return res
     c = ex.reg.get(name)
@@ -655,6 +662,8 @@ def str_method(ex, recv, method, e, kwargs, st):
                 res.append((st2, vals))
                 continue
             r = L.fresh('str', L.Str)
+            if method == 'format' and len(vals) == 1 and not kwargs and vals[0].kind == 'int' and recv.kind == 'str':
+                r = L.FMT1(recv.t, vals[0].t)
             tmpl = e.func.value.value if (method == 'format' and isinstance(e.func.value, ast.Constant)
                                           and isinstance(e.func.value.value, str)) else None
             if tmpl is not None:
